@@ -93,6 +93,11 @@ impl<'a> G<'a> {
             3 => "/**/".into(),
             4 => format!(" \\{}", self.eol),
             5 => format!(" \\{} ", self.eol),
+            // a comment over several lines whose text looks like directives (it is one blank in C)
+            6 if self.r.chance(1, 4) => {
+                self.kinds.add("spelling:multi-line-comment");
+                format!(" /* m{e}#endif{e}#else l */ ", e = self.eol)
+            }
             _ => " ".into(),
         }
     }
@@ -287,12 +292,20 @@ impl<'a> G<'a> {
 
     /// `#name args` with random spelling
     pub fn directive(&mut self, name: &str, args: &str) -> String {
-        let lead = match self.r.below(10) {
-            0 => " ",
-            1 => "\t",
-            2 => "  ",
-            3 => "/* c */",
-            4 => " /**/ ",
+        let lead_ml = format!("/* a{e} #if 1{e} */ ", e = self.eol);
+        let trail_ml = format!(" /* t{e}#else{e}*/", e = self.eol);
+        let trail_splice = format!(" // c \\{e}#endif", e = self.eol);
+        let lead = match self.r.below(40) {
+            0..=3 => " ",
+            4..=7 => "\t",
+            8..=11 => "  ",
+            12..=15 => "/* c */",
+            16..=19 => " /**/ ",
+            // comments over several lines, with text that looks like directives
+            20 => {
+                self.kinds.add("spelling:multi-line-comment");
+                lead_ml.as_str()
+            }
             _ => "",
         };
         let mid = match self.r.below(10) {
@@ -302,12 +315,20 @@ impl<'a> G<'a> {
             3 => format!(" \\{}", self.eol),
             _ => String::new(),
         };
-        let trail = match self.r.below(10) {
-            0 => " ",
-            1 => " // c",
-            2 => " /* c */",
-            3 => "\t",
-            4 => "//",
+        let trail = match self.r.below(40) {
+            0..=3 => " ",
+            4..=7 => " // c",
+            8..=11 => " /* c */",
+            12..=15 => "\t",
+            16..=19 => "//",
+            20 => {
+                self.kinds.add("spelling:multi-line-comment");
+                trail_ml.as_str()
+            }
+            21 => {
+                self.kinds.add("spelling:spliced-line-comment");
+                trail_splice.as_str()
+            }
             _ => "",
         };
         let sep = if args.is_empty() {
@@ -666,6 +687,89 @@ impl<'a> G<'a> {
         main.push_str("T\n#else\nF\n#endif\n");
         self.kinds.add("raw-cond");
         RawCase { defs, files: vec![("main.rssl".to_string(), main)] }
+    }
+
+    /// a program of which (almost always) nothing at all is selected: the output of the preprocessor is empty or
+    /// blank only, and the parser must be handed `Eof` and nothing else.  (Every other generator ends with a
+    /// probe line, so their output is never empty.)
+    pub fn empty_case(&mut self) -> RawCase {
+        let k = self.r.below(12);
+        self.kinds.add(&format!("nothing-selected-shape:{}", k));
+        let inner = {
+            let c = if self.r.chance(1, 2) { self.cond_case() } else { self.case() };
+            c
+        };
+        self.eol = "\n";
+        let body = inner.files[0].1.clone();
+        let body_nl = if body.ends_with('\n') || body.is_empty() { body.clone() } else { format!("{}\n", body) };
+        let mut files: Vec<(String, String)> = Vec::new();
+        let main = match k {
+            0 => String::new(),
+            1 => "\n".to_string(),
+            2 => " \t /* c */ \n// only a comment\n\n".to_string(),
+            3 => "/* a comment\nover two lines */".to_string(),
+            4 => format!("#if 0\n{}#endif\n", body_nl),
+            5 => format!("#ifdef NEVER_DEFINED\n{}#endif", body_nl),
+            6 => format!("#if 1\n#else\n{}#endif\n", body_nl),
+            7 => "#define A 1\n#define F(x) x\n#undef A\n#pragma once\n".to_string(),
+            8 => {
+                files.push(("e.h".to_string(), String::new()));
+                files.push(("s.h".to_string(), "#if 0\nskipped\n#endif\n".to_string()));
+                "#include \"e.h\"\n#include <s.h>\n#include \"e.h\"\n".to_string()
+            }
+            9 => format!("#if 0\n#elif 0\n{}#else\n#endif\n", body_nl),
+            10 => "#if 1\n#if 0\nx\n#endif\n#else\ny\n#endif\n".to_string(),
+            _ => format!("#ifndef G\n#define G\n#include \"main.rssl\"\n#else\n#if 0\n{}#endif\n#endif\n", body_nl),
+        };
+        let mut all = vec![("main.rssl".to_string(), main)];
+        if matches!(k, 4 | 5 | 6 | 9 | 11) {
+            all.extend(inner.files[1..].iter().cloned());
+        }
+        all.extend(files);
+        RawCase { defs: if self.r.chance(1, 4) { vec![("A".to_string(), "1".to_string())] } else { Vec::new() }, files: all }
+    }
+
+    /// one text for the entry point `preprocess_fragment` (request `C11.frag`): a single-file program of the
+    /// ordinary generators, with lines in front that look at the define the function supplies
+    /// (`__HLSL_VERSION`): tested with every relational operator, `#ifdef` / `#ifndef` / `defined`, as text,
+    /// redefined, undefined, or not mentioned at all; sometimes the fragment includes itself by its own name
+    pub fn frag_case(&mut self) -> RawCase {
+        let mut base = None;
+        for _ in 0..6 {
+            let c = if self.r.chance(1, 3) { self.cond_case() } else { self.case() };
+            if c.files.len() == 1 {
+                base = Some(c);
+                break;
+            }
+        }
+        let base = base.unwrap_or_else(|| self.cond_case());
+        let mut main = String::new();
+        let v = "__HLSL_VERSION";
+        let k = self.r.below(12);
+        self.kinds.add(&format!("frag-version-use:{}", k));
+        match k {
+            0 => {}
+            1 => {
+                let op = *self.r.pick(&[">=", "==", "<", "<=", ">", "!="]);
+                let n = *self.r.pick(&["2021", "2018", "2022", "0", "1"]);
+                main.push_str(&format!("#if {} {} {}\nvt\n#else\nvf\n#endif\n", v, op, n));
+            }
+            2 => main.push_str(&format!("#ifdef {}\nvdef\n#else\nvundef\n#endif\n", v)),
+            3 => main.push_str(&format!("#ifndef {}\n#define {} 2018\nvundef\n#endif\n", v, v)),
+            4 => main.push_str(&format!("#if defined({}) && {} == 2021\nvt\n#elif defined {}\nvother\n#else\nvnone\n#endif\n", v, v, v)),
+            5 => main.push_str(&format!("#undef {}\n#if {}\nvt\n#else\nvf\n#endif\n", v, v)),
+            6 => main.push_str(&format!("#define {} 2016\n#if {} < 2021\nvold\n#endif\n", v, v)),
+            7 => main.push_str(&format!("#if {} < 2021\nvold\n#elif {} == 2021\nv2021\n#else\nvnew\n#endif\n", v, v)),
+            8 => main.push_str(&format!("#if 0\n#undef {}\n#endif\n#if {}\nvt\n#endif\n", v, v)),
+            9 => main.push_str(&format!("#if !{}\nvzero\n#else\nvset\n#endif\n", v)),
+            10 => main.push_str("#ifndef FRAG_AGAIN\n#define FRAG_AGAIN\nfirst\n#include \"main.rssl\"\n#else\nsecond\n#endif\n"),
+            _ => main.push_str(&format!("version {}\n", v)),
+        }
+        let body = &base.files[0].1;
+        let at_end = self.r.chance(1, 3);
+        let text = if at_end { format!("{}{}", body, if body.ends_with('\n') || body.is_empty() { main.clone() } else { format!("\n{}", main) }) } else { format!("{}{}", main, body) };
+        let text = if self.r.chance(1, 2) { format!("{}probe {} A B\n", if text.ends_with('\n') || text.is_empty() { text.clone() } else { format!("{}\n", text) }, v) } else { text };
+        RawCase { defs: Vec::new(), files: vec![("main.rssl".to_string(), text)] }
     }
 
     /// one header of the re-include stream; `g` = its guard macro, `lower` = names of headers it may include
@@ -1066,4 +1170,8 @@ pub fn request_of(c: &RawCase) -> String {
         f.push(format!("{}={}", n, escape(t)));
     }
     f.join("\t")
+}
+
+pub fn request_of_frag(c: &RawCase) -> String {
+    format!("C11.frag\t{}", escape(&c.files[0].1))
 }
